@@ -246,6 +246,31 @@ void cmi_process_add_awaitable(struct  cmb_process *pp,
  * Will remove the first (assumed only) event of that type if the last
  * argument is NULL.
  */
+/*
+ * is_awaiting - Is the process (still) registered as waiting for this? If it is
+ * when a success code arrives, that code was not meant for this wait: e.g., a
+ * cmb_process_resume() aimed at an earlier cmb_process_yield() that something
+ * else had already ended, or a timer carrying the success code as its signal.
+ */
+static bool is_awaiting(const struct cmb_process *pp,
+                        const enum cmi_process_awaitable_type type,
+                        const void *awaitable)
+{
+    const struct cmi_slist_head *ahead = &(pp->awaits);
+    while (ahead->next != NULL) {
+        const struct cmi_process_awaitable *awp = cmi_container_of(ahead->next,
+                                                   struct cmi_process_awaitable,
+                                                   listhead);
+        if ((awp->type == type) && (awp->ptr == awaitable)) {
+            return true;
+        }
+
+        ahead = ahead->next;
+    }
+
+    return false;
+}
+
 bool cmi_process_remove_awaitable(struct cmb_process *pp,
                                   const enum cmi_process_awaitable_type type,
                                   const void *awaitable)
@@ -290,8 +315,16 @@ int64_t cmb_process_hold(const double dur)
                                                cmb_process_priority(pp));
     cmi_process_add_awaitable(pp, CMI_PROCESS_AWAITABLE_HOLD, (void *)handle);
 
-    /* Yield to the dispatcher and collect the return signal value when back */
-    const int64_t sig = (int64_t)cmi_coroutine_yield(NULL);
+    /*
+     * Yield to the dispatcher and collect the return signal value when back.
+     * A success code while our own wakeup call is still on its way is not for
+     * us (see is_awaiting()): the hold is not over, go on waiting.
+     */
+    int64_t sig;
+    do {
+        sig = (int64_t)cmi_coroutine_yield(NULL);
+    } while ((sig == CMB_PROCESS_SUCCESS)
+             && is_awaiting(pp, CMI_PROCESS_AWAITABLE_HOLD, (void *)handle));
 
     /* Back here again, possibly much later. */
     if (sig != CMB_PROCESS_SUCCESS) {
@@ -464,8 +497,16 @@ int64_t cmb_process_wait_process(struct cmb_process *awaited)
         cmi_process_add_awaitable(me, CMI_PROCESS_AWAITABLE_PROCESS, awaited);
         add_waiter_tag(&(awaited->waiters), me);
 
-        /* Yield to the dispatcher and collect the return signal value */
-        const int64_t sig = (int64_t)cmi_coroutine_yield(NULL);
+        /*
+         * Yield to the dispatcher and collect the return signal value. A success
+         * code while we are still registered as waiting did not come from the
+         * awaited process (see is_awaiting()): go on waiting.
+         */
+        int64_t sig;
+        do {
+            sig = (int64_t)cmi_coroutine_yield(NULL);
+        } while ((sig == CMB_PROCESS_SUCCESS)
+                 && is_awaiting(me, CMI_PROCESS_AWAITABLE_PROCESS, awaited));
 
         /*
          * Possibly much later. If we are still registered as waiting, it was
@@ -514,8 +555,16 @@ int64_t cmb_process_wait_event(const uint64_t ev_handle)
     /* Add the event to our list of things to be waited for */
     cmi_process_add_awaitable(me, CMI_PROCESS_AWAITABLE_EVENT, (void *)ev_handle);
 
-    /* Yield to the dispatcher and collect the return signal value */
-    const int64_t ret = (int64_t)cmi_coroutine_yield(NULL);
+    /*
+     * Yield to the dispatcher and collect the return signal value. A success
+     * code while we are still registered as waiting did not come from the
+     * event (see is_awaiting()): go on waiting.
+     */
+    int64_t ret;
+    do {
+        ret = (int64_t)cmi_coroutine_yield(NULL);
+    } while ((ret == CMB_PROCESS_SUCCESS)
+             && is_awaiting(me, CMI_PROCESS_AWAITABLE_EVENT, (void *)ev_handle));
 
     /*
      * Possibly much later. If we are still registered as waiting, something
